@@ -152,6 +152,48 @@ func EvalTwice(f *Forest, src string, res []fhir.Resource, copts []fhirpath.Comp
 	return out1, out2
 }
 
+// EvalCross compiles src once and evaluates the compiled expression on inputs A, then on OTHER inputs B, then on A
+// again; a freshly compiled expression is evaluated on B for reference. It returns the first outcome on A and two
+// flags: reevalDiffers (the third evaluation, on A again, differs from the first: the compiled expression or shared
+// state was changed by the evaluations in between) and crossDiffers (the reused expression disagrees on B with a fresh
+// one: something of the first evaluation - variable values, the resource, a cached descriptor - was kept).
+func EvalCross(f *Forest, src string, resA []fhir.Resource, optsA func() []fhirpath.EvaluateOption,
+	resB []fhir.Resource, optsB func() []fhirpath.EvaluateOption) (Outcome, bool, bool) {
+	var outA, outA2, outB, outBfresh Outcome
+	rep := SafeRetry(func() {
+		outA, outA2, outB, outBfresh = nil, nil, nil, nil
+		e, err := fhirpath.Compile(src)
+		if err != nil {
+			outA = ErrOutcome("cerr", err)
+			outA2, outB, outBfresh = outA, outA, outA
+			return
+		}
+		run := func(x *fhirpath.Expression, res []fhir.Resource, opts func() []fhirpath.EvaluateOption) Outcome {
+			c, err := x.Evaluate(res, opts()...)
+			if err != nil {
+				return ErrOutcome("err", err)
+			}
+			return OkOutcome(f.ProjectCollection(c))
+		}
+		outA = run(e, resA, optsA)
+		outB = run(e, resB, optsB)
+		outA2 = run(e, resA, optsA)
+		fresh, err := fhirpath.Compile(src)
+		if err != nil {
+			outBfresh = ErrOutcome("cerr", err)
+			return
+		}
+		outBfresh = run(fresh, resB, optsB)
+	})
+	if rep.Timeout {
+		return TimeoutOutcome(), false, false
+	}
+	if rep.Panic != "" {
+		return PanicOutcome(rep), false, false
+	}
+	return outA, !SameOutcome(outA, outA2), !SameOutcome(outB, outBfresh)
+}
+
 // SameOutcome compares two projected outcomes structurally (through their JSON form).
 func SameOutcome(a, b Outcome) bool {
 	ja, _ := json.Marshal(a)
